@@ -430,6 +430,10 @@ HAND = [
     # the client applies its PEX setting: a private torrent must stay silent (DownloadInfo::set_pex_enabled's guard)
     (300, True, 40, "P1 c0 b0:Hm3,x1,p7000 t c1 b1:Hx2,p5 t P0 P1 c2 b2:Hx3,p9 t t"),
     (300, False, 40, "P0 c0 b0:Hm3,x1,p7000 t P1 c1 b1:Hx2,p5 t t P0 t c2 b2:Hx3,p9 t P1 t t"),
+    # a ut_pex message still in flight (peer not accepting bytes) when PEX is switched off for that connection
+    # at the next tick: do_peer_exchange must copy the shared buffer before clearing it
+    (300, False, 4, "c0 b0:Hx1,p1 c1 b1:Hx1,p2 c2 b2:Hx1,p3 t w0:0 b2:Hp9 t c3 b3:Hx1,p4 t w0:inf t"),
+    (300, False, 4, "e0 b0:Hx1,p1 c1 b1:Hx1,p2 c2 b2:Hx1,p3 t w0:0 b2:Hp9 t c3 b3:Hx1,p4 t w0:drip3 t"),
     (300, False, 40, "e0 b0:Hm3,x1,p7000 t w0:0 e1 b1:Hx2,p5 b0:M2.0.0/M2.0.0 t w0:drip7 t"),
 ]
 
@@ -762,6 +766,9 @@ def oracle(case, impl):
                             valid_ports.setdefault(i, {0}).add(int(f[1:]))
         if opname[:1] in ("c", "e"):
             adv[int(opname[1])] = {"m": None, "x": None}
+        if "UAF" in snap:
+            viol.append(("pex-buffer-use-after-free", "after '%s' a connection's extension message in flight points into freed memory (shared PEX buffer cleared by do_peer_exchange): %s" % (
+                opname, snap[snap.index("UAF"):snap.index("UAF") + 80])))
         conn = {}
         for m in SNAP_RE.finditer(snap):
             kv = dict(t.split("=", 1) for t in m.group(2).split() if "=" in t)
@@ -789,7 +796,12 @@ def oracle(case, impl):
             if priv and f.get("m::ut_pex", "0") not in ("0",) and eid == 0 and "metadata_size" in f:
                 viol.append(("pex-private", "after '%s' our extension handshake to peer %d advertises ut_pex=%s for a private torrent" % (opname, i, f.get("m::ut_pex"))))
             if "BADBENCODE" in m.group(2):
-                viol.append(("reject-truncated", "after '%s' peer %d received an extended message that is not bencode: %s" % (opname, i, m.group(2)[:100])))
+                if "BADBENCODE:64383a6d73675f74797065693265" in m.group(2):     # "d8:msg_typei2e..." cut short
+                    viol.append(("reject-truncated", "after '%s' peer %d received an extended message that is not bencode: %s" % (opname, i, m.group(2)[:100])))
+                else:
+                    viol.append(("pex-buffer-use-after-free",
+                                 "after '%s' peer %d received an extended message (id %d) whose bytes are not bencode — a ut_pex message written from a shared "
+                                 "buffer that do_peer_exchange had already freed: %s" % (opname, i, eid, m.group(2)[:110])))
                 continue
             if "msg_type" in f:
                 # ut_metadata reply
